@@ -1161,7 +1161,8 @@ def fault_scenarios(ctx, fclones):
       copy_fault:   a per-process file size limit (RLIMIT_FSIZE 16 KiB, SIGXFSZ ignored) makes every write beyond 16 KiB fail with
                     EFBIG, exactly like a full $TMPDIR: the private copy of a 64 KiB file cannot be made.  The transform programs
                     REWRITE their `$IN` (legitimate: without --no-copy it is a private copy).
-      no_launch:    the program cannot be launched (missing; a file that is not executable; a bogus executable)."""
+      no_launch:    the program cannot be launched (missing; a file that is not executable; a bogus executable).
+      cache_unusable: --cache with a cache home that is a regular file."""
     import resource
     import signal
     import subprocess
@@ -1190,8 +1191,18 @@ def fault_scenarios(ctx, fclones):
         open(os.path.join(bind, "not_executable"), "w").write("#!/bin/sh\ncat\n")
         open(os.path.join(bind, "bogus_elf"), "wb").write(b"\x7fELF garbage")
         os.chmod(os.path.join(bind, "bogus_elf"), 0o755)
-        kind = ["copy_fault", "no_launch"][i % 2]
-        if kind == "copy_fault":
+        kind = ["copy_fault", "no_launch", "cache_unusable"][i % 3]
+        cache_env = {}
+        if kind == "cache_unusable":
+            # --cache whose database directory cannot be created / opened (the cache home is a regular FILE): whatever
+            # fclones does then, nothing may be left in $TMPDIR and the tree stays as it is
+            blocker = os.path.join(base, "cache_home_is_a_file")
+            open(blocker, "w").write("not a directory\n")
+            cache_env = {"XDG_CACHE_HOME": blocker, "HOME": blocker}
+            cmd = rng.choice(["", "cat", "cat $IN"])
+            flags = ["--cache"]
+            pre = None
+        elif kind == "copy_fault":
             cmd = rng.choice(["truncate -s 10 $IN", "sh -c 'echo tail >> $IN'", "sh -c 'echo x > $IN; cat $IN'", "cp /dev/null $IN"])
             flags = rng.choice([["--in-place"], ["--in-place"], []])
             pre = limited
@@ -1202,9 +1213,10 @@ def fault_scenarios(ctx, fclones):
             if "$IN" not in cmd and "--in-place" in flags:
                 flags = []
             pre = None
-        argv = [fclones, "group", root, "--transform", cmd] + flags + rng.choice([[], ["--threads", "1"]])
+        argv = [fclones, "group", root] + (["--transform", cmd] if cmd else []) + flags + rng.choice([[], ["--threads", "1"]])
         env = dict(os.environ, TMPDIR=tmpd, HOME=base, XDG_CACHE_HOME=os.path.join(base, "cache"), NO_COLOR="1",
                    PATH=os.environ.get("PATH", "/usr/bin:/bin"))
+        env.update(cache_env)
         before = inventory(root)
         try:
             p = subprocess.run(argv, env=env, cwd=base, stdout=subprocess.PIPE, stderr=subprocess.PIPE, timeout=120, preexec_fn=pre)
